@@ -23,6 +23,11 @@ type C09Step struct {
 
 type C09Case struct {
 	Steps []C09Step `json:"steps"`
+	// AllDefaults: every option (values, converters, logger) is a NewFunc
+	// default of the target and every operation is invoked with NO options.
+	AllDefaults bool `json:"allDefaults,omitempty"`
+	// TargetDefault: the target carries a default option (FuncName).
+	TargetDefault bool `json:"targetDefault,omitempty"`
 }
 
 type funcSnapshot struct {
@@ -106,17 +111,41 @@ func evalC09(c *engine.Case) engine.Verdict {
 		v.Class("route-deterministic")
 	}
 	real, twin := engine.NewWorld(), engine.NewWorld()
-	tReal, _, err := real.Setup(sc)
+	setup := func(w *engine.World) (*argmapper.Func, error) {
+		if !x.AllDefaults {
+			s2 := *sc
+			s2.TargetDefault = x.TargetDefault
+			f, _, err := w.Setup(&s2)
+			return f, err
+		}
+		all, err := w.Args(sc)
+		if err != nil {
+			return nil, err
+		}
+		tgt := sc.Target
+		return w.Realize(&tgt, all...)
+	}
+	tReal, err := setup(real)
 	if err != nil {
 		v.Failf("setup: %v", err)
 		return v
 	}
-	tTwin, _, err := twin.Setup(sc)
+	tTwin, err := setup(twin)
 	if err != nil {
 		v.Failf("setup: %v", err)
 		return v
 	}
+	if x.AllDefaults {
+		v.Class("all-defaults-zero-option-operations")
+	}
+	// an older redefined function is called again after later Redefines
+	var oldRF *argmapper.Func
+	var oldArgs []argmapper.Arg
+	oldClass, oldLog, oldStep := "", "", -1
 	stepScenario := func(st C09Step) *engine.Scenario {
+		if x.AllDefaults {
+			return sc
+		}
 		s2 := *sc
 		s2.Inputs = nil
 		drop := map[int]bool{}
@@ -140,6 +169,9 @@ func evalC09(c *engine.Case) engine.Verdict {
 		return engine.SingleInput(s2) || (!engine.DepCyclic(s2, engine.RPlus) && engine.AllConvsSatisfiable(s2, engine.RMinus))
 	}
 	argsFor := func(w *engine.World, st C09Step) []argmapper.Arg {
+		if x.AllDefaults {
+			return nil
+		}
 		s2 := stepScenario(st)
 		a, err := w.Args(s2)
 		if err != nil {
@@ -169,7 +201,7 @@ func evalC09(c *engine.Case) engine.Verdict {
 		case "redefine":
 			sawRedefine = true
 			args := argsFor(real, st)
-			if st.HasF {
+			if st.HasF && !x.AllDefaults {
 				args = append(args, argmapper.FilterInput(typeFilter(st.Filter)))
 			}
 			before := map[int]int{}
@@ -236,7 +268,13 @@ func evalC09(c *engine.Case) engine.Verdict {
 							continue
 						}
 						tok++
-						callArgs = append(callArgs, engine.InputArg(engine.Input{L: engine.Label{Name: iv.Name, Type: ti, Sub: iv.Subtype, Dyn: ti}, Tok: tok}))
+						in := engine.Input{L: engine.Label{Name: iv.Name, Type: ti, Sub: iv.Subtype, Dyn: ti}, Tok: tok}
+						real.RegisterInput(in)
+						twin.RegisterInput(in)
+						callArgs = append(callArgs, engine.InputArg(in))
+					}
+					for t2 := 700 + si*10 + 1; t2 <= tok; t2++ {
+						real.AddAltLabels(t2, rf)
 					}
 					callArgs = append(callArgs, engine.Quiet())
 					or := real.Call(rf, callArgs)
@@ -245,8 +283,13 @@ func evalC09(c *engine.Case) engine.Verdict {
 						return v
 					}
 					targs := argsFor(twin, st)
-					if st.HasF {
+					if st.HasF && !x.AllDefaults {
 						targs = append(targs, argmapper.FilterInput(typeFilter(st.Filter)))
+					}
+					if oldRF == nil && or.Panic == "" {
+						// remember this redefined function and what its first call did
+						oldRF, oldArgs, oldStep = rf, callArgs, si
+						oldClass, oldLog = outcomeClass(or), executedSet(or.Events)
 					}
 					trf, terr := tTwin.Redefine(targs...)
 					if terr != nil || fmt.Sprint(rf.Input().Values()) != fmt.Sprint(trf.Input().Values()) {
@@ -331,6 +374,36 @@ func evalC09(c *engine.Case) engine.Verdict {
 					diverged = true
 				}
 			}
+		}
+		if oldRF != nil && st.Op == "redefine" && si > oldStep {
+			// Redefine must not disturb a function it returned EARLIER: called
+			// again with the same arguments it behaves as it did the first time
+			// (compared where behaviour is a function of the call alone: no
+			// run-once functions, no failing ones, unique routes)
+			o2 := real.Call(oldRF, oldArgs)
+			if o2.Panic != "" {
+				v.Failf("step %d: an earlier redefined function panicked when called again: %s", si, o2.Panic)
+				return v
+			}
+			if msg := engine.CheckBindings(real, o2.Events); msg != "" {
+				v.Failf("step %d (earlier redefined function called again): %s", si, msg)
+				return v
+			}
+			if unique && len(onceIDs) == 0 && !hasFailing(sc) && wellFor(x.Steps[oldStep]) {
+				if a := outcomeClass(o2); a != oldClass {
+					v.Failf("step %d: the function returned by the Redefine of step %d now gives outcome %s, its first call gave %s", si, oldStep, a, oldClass)
+					return v
+				}
+				// (which supplied value feeds a type-only parameter may be a tie
+				// between an original argument and a fresh one: only the set of
+				// executed functions is compared, not provenance)
+				if a := executedSet(o2.Events); a != oldLog {
+					v.Failf("step %d: the function returned by the Redefine of step %d executes other functions after a later Redefine: first %s, now %s", si, oldStep, oldLog, a)
+					return v
+				}
+				v.Class("earlier-redefined-function-recalled")
+			}
+			diverged = true // the twin does not mirror this extra call
 		}
 		// run-once converters: never more than one execution; equal to the twin's
 		for _, id := range onceIDs {
@@ -436,6 +509,8 @@ func genC09(g engine.G) *engine.Case {
 		}
 		x.Steps = append(x.Steps, st)
 	}
+	x.AllDefaults = g.Pct(15)
+	x.TargetDefault = g.Pct(50)
 	c := &engine.Case{Sc: sc}
 	c.SetX(&x)
 	return c
